@@ -1,10 +1,10 @@
-(* Extract/Extract.v — extraction of the executable models to OCaml.
+(* Extract/Extract_c22.v — extraction of the C22 models to OCaml.
    Only ExtrOcamlBasic is loaded; Z, N, positive stay the extracted datatypes. *)
 Require Extraction.
 Require Import ExtrOcamlBasic.
 From IronCalc Require Import Base.Prelude Base.Dec Codec.Column Codec.RefA1 Codec.RefRC Codec.SheetName.
 Extraction Language OCaml.
-Extraction "model.ml"
+Extraction "model_c22.ml"
   Dec.dec_of_Z Dec.dec_val
   Column.column_to_number Column.number_to_column Column.is_valid_column Column.col_overflows
   RefA1.parse_reference_a1 RefA1.print_a1 RefRC.parse_reference_r1c1 RefRC.print_rc
